@@ -100,6 +100,7 @@ type Case struct {
 	Seed    uint64    `json:"seed,omitempty"`
 	Race    []RaceObs `json:"race,omitempty"`
 	Skipped bool      `json:"skipped,omitempty"` // not run: the stream was stopped after repeated hangs
+	SkipBudget bool   `json:"skipped_budget,omitempty"` // ... or the wall-clock budget of the run was used up
 	// silent stream: rounds of "a peer that reads and never answers is kicked"
 	Silent []SilentObs `json:"silent,omitempty"`
 	// front stream: rounds of "a front connection's dial is refused by a live endpoint"
@@ -1403,7 +1404,12 @@ func main() {
 	child := flag.Bool("child", false, "child mode")
 	from := flag.Int("from", 0, "first case (child)")
 	mem := flag.Uint64("mem", 4<<30, "address-space limit of the child")
+	budget := flag.Int("budget", 0, "wall-clock budget of the whole run in seconds (0: none): cases not started by then are skipped")
+	deadline := flag.Int64("deadline", 0, "(child) unix time after which no further case is started")
 	flag.Parse()
+	if *budget > 0 && *deadline == 0 {
+		*deadline = time.Now().Unix() + int64(*budget)
+	}
 	var scripted []Case
 	if *script != "" {
 		scripted = loadScript(*script)
@@ -1451,9 +1457,10 @@ func main() {
 		stopped := map[string]bool{}
 		for i := *from; i < total; i++ {
 			c := gen(i)
-			if stopped[c.Stream] {
+			if stopped[c.Stream] || (*deadline > 0 && time.Now().Unix() >= *deadline) {
 				c.Events, c.Notes, c.Bg, c.Looks, c.Before = []Ev{}, []Note{}, []BgObs{}, [][]int{}, [][]int{}
 				c.Skipped = true
+				c.SkipBudget = !stopped[c.Stream]
 				out.Emit(&c)
 				continue
 			}
@@ -1471,7 +1478,7 @@ func main() {
 	}
 	args := []string{"-seed", strconv.FormatUint(*seed, 10), "-n", strconv.Itoa(*n), "-free", strconv.Itoa(*nfree),
 		"-race", strconv.Itoa(*nrace), "-silent", strconv.Itoa(*nsilent), "-front", strconv.Itoa(*nfront),
-		"-slow", strconv.Itoa(*slow)}
+		"-slow", strconv.Itoa(*slow), "-deadline", strconv.FormatInt(*deadline, 10)}
 	if *script != "" {
 		args = append(args, "-script", *script)
 	}
